@@ -2,7 +2,7 @@
 
 Every call runs in a *worker subprocess* (props/rs_worker.py, one per shard, restarted when it dies), because the
 failure mode looked for kills the interpreter.  A case = a valid generated layer stack (rs_common.stack_strategy,
-*any* surface layer kind) plus one malformation `mut` drawn from:
+*any* surface layer kind; 1-5 layers, and in one case out of five 6-64 layers) plus one malformation `mut` drawn from:
   none | tuple_len | layer_type_unknown | layer_type_case | integrator_unknown | solve_for_{list,unknown,too_many,upper,
   none,empty} | array_len | noncontiguous | dtype | few_slices_in_layer | upper_radius_mismatch | too_few_total | degree
   (0,1,2,3,7,20,60,255,256,1000) | bad_value (NaN,0,-1,+-inf,1e300,1e-300 at first/middle/last position of any array) |
@@ -226,7 +226,10 @@ def _trigger(mut, pm):
 
 
 def strategy(tier):
-    base = rc.stack_strategy(1, 5, surface='any')
+    # mostly 1-5 layers; one case in five is a many-layer stack (6-64 layers, 5-8 slices each): nothing in the API bounds
+    # the number of layers (PREM-like models have dozens)
+    base = st.sampled_from([0, 0, 0, 0, 1]).flatmap(
+        lambda big: rc.stack_strategy(6, 64, surface='any', n_range=(5, 8)) if big else rc.stack_strategy(1, 5, surface='any'))
     return st.fixed_dictionaries({
         'base': base,
         'mut': st.fixed_dictionaries({'kind': st.sampled_from(MUTS), 'p': st.integers(0, 209)}),
@@ -258,6 +261,12 @@ def fixed_cases(tier):
     w = _witness('bad_value', ['solid', True, False])
     w['mut']['p'] = 129                     # shear[0] = -inf
     out.append(w)
+    for nlay in (33, 48):                    # many-layer stacks (all solid, static compressible)
+        out.append({'base': {'kinds': [['solid', True, False]] * nlay, 'weights': [1.0] * nlay, 'logrho_top': 3.3,
+                             'rho_ratios': [1.02] * nlay, 'logmu': [10.7] * nlay, 'argmu': [0.05] * nlay, 'logK': [11.2] * nlay,
+                             'n': [6] * nlay, 'logR': 6.6, 'logr0': -2.0, 'l': 2, 'logfreq': -4.5, 'family': 'kamata',
+                             'solve_for': ['tidal'], 'nondim': nlay == 33, 'method': 'RK45', 'logrtol': -7.0},
+                    'mut': {'kind': 'none', 'p': 0}, 'raise_on_fail': False, 'witness': True})
     for pp in (3, 2, 0, 5):                 # bulk_density = 0, frequency = 0, frequency = NaN, bulk_density = -1
         w = _witness('bad_scalar', ['solid', True, False])
         w['mut']['p'] = pp
@@ -266,7 +275,7 @@ def fixed_cases(tier):
 
 
 def required_labels(tier):
-    return ['outcome:returned', 'outcome:raised', 'success:False', 'success:True', 'raise_on_fail:checked'] + \
+    return ['outcome:returned', 'outcome:raised', 'success:False', 'success:True', 'raise_on_fail:checked', 'layers:6-32', 'layers:33-64'] + \
            ['mut:' + m for m in sorted(set(MUTS))]
 
 
@@ -276,7 +285,7 @@ def in_domain(case):
             return True
         b = dict(case['base'])
         top = b['kinds'][-1]
-        ok = rc.stack_in_domain(dict(b, kinds=b['kinds'][:-1] + [['solid', True, False]]))
+        ok = rc.stack_in_domain(dict(b, kinds=b['kinds'][:-1] + [['solid', True, False]]), 64)
         return bool(ok and case['mut']['kind'] in MUTS and 0 <= case['mut']['p'] <= 209 and top[0] in ('solid', 'liquid'))
     except Exception:
         return False
@@ -286,7 +295,8 @@ def evaluate(case):
     mut = case['mut']['kind']
     top = case['base']['kinds'][-1]
     nondim = bool(case['base']['nondim'])
-    labels = ['mut:' + mut, 'nondim:%s' % nondim, 'surface:' + rc.kind_name(tuple(top)), 'raise_on_fail:%s' % bool(case['raise_on_fail'])]
+    nl = len(case['base']['kinds'])
+    labels = ['layers:' + ('1-5' if nl <= 5 else '6-32' if nl <= 32 else '33-64'), 'mut:' + mut, 'nondim:%s' % nondim, 'surface:' + rc.kind_name(tuple(top)), 'raise_on_fail:%s' % bool(case['raise_on_fail'])]
     liquid_dyn_surface = top[0] == 'liquid' and not top[1]
     if liquid_dyn_surface and not case.get('witness') and mut in ('none', 'noncontiguous', 'degree', 'step_budget', 'ram_budget',
                                                                   'rtol_extreme', 'atol_extreme', 'expected_size', 'max_step',
